@@ -24,8 +24,8 @@ T = "T"
 opt: Literal['adam', 'sgd'] = 'adam'
 depth: int = 3
 rate = 0.5
-choices = ("adam", "sgd")
-sizes = [1, 2, 3]
+choices = ("sgd", "adam")
+sizes = [3, 1, 2]
 
 
 class Config(object):
@@ -49,6 +49,9 @@ def gen_output_src(r):
         parts.append("import sys\n")
     if r.random() < 0.5:
         parts.append("epochs = 5\n")
+    if r.random() < 0.35:
+        # a helper defined BEFORE the module-level variables, with same-named annotated locals inside a nested block
+        parts.append("def setup(flag, momentum=1):\n    if flag:\n        threshold: float = 9.5\n        for _ in range(2):\n            label: str = 'inner'\n    return flag\n")
     parts.append("threshold: float = 0.25\nlabel = 'x'\n")
     if r.random() < 0.3:
         parts.append("def fit(epochs=2, lr=3):\n    return lr\n")  # a module-level namesake of the method, before its class
@@ -138,7 +141,7 @@ class C14(Prop):
         try:
             ip, op = os.path.join(d, "input.py"), os.path.join(d, "output.py")
             outs = []
-            for src in (INPUT_SRC, INPUT_SRC.replace('choices = ("adam", "sgd")', 'choices = ("rmsprop",)').replace("sizes = [1, 2, 3]", "sizes = [7]")):
+            for src in (INPUT_SRC, INPUT_SRC.replace('choices = ("sgd", "adam")', 'choices = ("rmsprop",)').replace("sizes = [3, 1, 2]", "sizes = [7]")):
                 with open(ip, "w") as f:
                     f.write(src)
                 with open(op, "w") as f:
